@@ -146,7 +146,7 @@ func main() {
 				}
 				rr.Stats.PairFP = nil
 				res.Runs = append(res.Runs, rr)
-				if rr.Stats.Aborted != "" || rr.HarnessErr != "" {
+				if (rr.Stats.Aborted != "" && rr.Stats.Aborted != "harness-limit") || rr.HarnessErr != "" {
 					res.Stopped = fmt.Sprintf("run %d: %s %s", rr.Index, rr.Stats.Aborted, rr.HarnessErr)
 					break
 				}
